@@ -159,6 +159,9 @@ func init() {
 		Mutant{Prop: "C17", Name: "previous-voting-view-not-replaced", File: fChatty, Func: "ChattyStrategy.kernel",
 			Find: `\t\t\t\tprevVotingView = \*u\.Voting\n`, Repl: "", Expect: []string{"C17.4"}},
 
+		Mutant{Prop: "C17", Name: "diff-stops-after-first-changed-part", File: fChatty, Func: "ChattyStrategy.broadcastUpdatesOnly",
+			Find: `(?s)(if len\(cur\.ProposedHeaders\) != len\(prev\.ProposedHeaders\) \{\n)\t\tif !s\.broadcastProposedBlocks\(ctx, cur\) \{\n\t\t\treturn false\n\t\t\}\n`, Repl: "${1}\t\treturn s.broadcastProposedBlocks(ctx, cur)\n", Expect: []string{"C17.3"}},
+
 		// ---- C18
 		Mutant{Prop: "C18", Name: "majority-off-by-one-for-remainder-two", File: fMath, Func: "ByzantineMajority",
 			Find: `if rem < 2 \{`, Repl: `if rem < 3 {`, Expect: []string{"C18.1", "C18.4"}},
